@@ -2,11 +2,12 @@ package tubes
 
 // C18 — tube frame headers round-trip (frame.toBytes / fromBytes,
 // initiateFrame.toBytes / fromInitiateBytes and the path the muxer really
-// takes for initiate frames: fromInitiateBytes(fromBytes(buf).toBytes())).
+// takes for initiate frames: fromInitiateBytes(fromBytes(datagram).toBytes())).
 
 import (
 	"bytes"
 	"fmt"
+	"os"
 	"testing"
 
 	"pgregory.net/rapid"
@@ -29,16 +30,19 @@ func c18Flags(b int) frameFlags {
 	return frameFlags{REQ: b&1 != 0, RESP: b&2 != 0, REL: b&4 != 0, ACK: b&8 != 0, FIN: b&16 != 0, RTR: b&32 != 0}
 }
 
-// the muxer hands fromBytes its whole 65535-byte receive buffer; whatever
-// follows the frame in it is stale. The harness fills the rest with a sentinel.
-func c18Buffer(enc []byte) []byte {
-	buf := make([]byte, 65535)
-	for i := range buf {
+// c18Datagram is what the muxer hands the frame decoders: the bytes of one
+// datagram (Muxer.readMsg: fromBytes(m.readBuf[:n])). tail > 0 models a datagram
+// that is longer than the frame it carries: sentinel bytes follow the frame.
+func c18Datagram(enc []byte, tail int) []byte {
+	buf := make([]byte, len(enc)+tail)
+	copy(buf, enc)
+	for i := len(enc); i < len(buf); i++ {
 		buf[i] = wire.SentinelByte
 	}
-	copy(buf, enc)
 	return buf
 }
+
+func c18Buffer(enc []byte) []byte { return c18Datagram(enc, 0) }
 
 func c18FrameRunA(c c18Frame, v *vlib.Verdict) {
 	data := vlib.Fill(c.Seed, c.Len)
@@ -89,22 +93,35 @@ func c18FrameRunA(c c18Frame, v *vlib.Verdict) {
 			}
 			return true
 		}
-		var g *initiateFrame
-		if vlib.Guard(v, func() { g = fromInitiateBytes(c18Buffer(enc)) }) {
-			return
+		for _, tail := range []int{0, 64} {
+			var g *initiateFrame
+			if vlib.Guard(v, func() { g = fromInitiateBytes(c18Datagram(enc, tail)) }) {
+				return
+			}
+			if !check(fmt.Sprintf("fromInitiateBytes (datagram = frame + %d bytes)", tail), g) {
+				return
+			}
 		}
-		if !check("fromInitiateBytes", g) {
-			return
+		// the muxer's path: every datagram is first parsed as a data frame and re-serialised. Initiate frames are
+		// built without data and with REQ or RESP set (tubes/reliable.go, unreliable.go); only those take this path.
+		if len(data) == 0 && (flags.REQ || flags.RESP) {
+			v.Label("initiate-frame-via-muxer-path")
+			var g2 *initiateFrame
+			var ferr error
+			if vlib.Guard(v, func() {
+				var fr *frame
+				if fr, ferr = fromBytes(c18Datagram(enc, 0)); ferr == nil {
+					g2 = fromInitiateBytes(fr.toBytes())
+				}
+			}) {
+				return
+			}
+			if ferr != nil {
+				v.Failf("C18:decode-rejects-own-encoding:tubes.initiateFrame", "fromBytes rejects the 10-byte encoding of an initiate frame (flags %+v): %v", flags, ferr)
+				return
+			}
+			check("fromInitiateBytes(fromBytes(datagram).toBytes())", g2)
 		}
-		// the muxer's path: every datagram is first parsed as a data frame and re-serialised
-		var g2 *initiateFrame
-		if vlib.Guard(v, func() {
-			fr, _ := fromBytes(c18Buffer(enc))
-			g2 = fromInitiateBytes(c18Buffer(fr.toBytes()))
-		}) {
-			return
-		}
-		check("fromInitiateBytes(fromBytes(buf).toBytes())", g2)
 		return
 	}
 	v.Label("data-frame")
@@ -119,11 +136,12 @@ func c18FrameRunA(c c18Frame, v *vlib.Verdict) {
 	}
 	var g *frame
 	var err error
-	if vlib.Guard(v, func() { g, err = fromBytes(c18Buffer(enc)) }) {
+	tail := int(c.Seed % 2 * 64) // every other case: the datagram continues past the frame
+	if vlib.Guard(v, func() { g, err = fromBytes(c18Datagram(enc, tail)) }) {
 		return
 	}
 	if err != nil {
-		v.Failf("C18:decode-rejects-own-encoding:tubes.frame", "fromBytes: %v", err)
+		v.Failf("C18:decode-rejects-own-encoding:tubes.frame", "fromBytes (datagram = frame + %d bytes): %v", tail, err)
 		return
 	}
 	field := ""
@@ -219,6 +237,12 @@ func c18FrameRunB(c c18FrameB, v *vlib.Verdict) {
 	in := append([]byte(nil), c.Header[:]...)
 	in[2], in[3] = byte(c.Len>>8), byte(c.Len)
 	in = append(in, vlib.Fill(c.Seed, c.Len)...)
+	c18FrameBytesB(in, v)
+}
+
+// c18FrameBytesB: decode -> encode -> decode on one datagram (>= 12 bytes whose
+// length field does not exceed the bytes present).
+func c18FrameBytesB(in []byte, v *vlib.Verdict) {
 	var f *frame
 	var err error
 	if vlib.Guard(v, func() { f, err = fromBytes(c18Buffer(in)) }) {
@@ -277,4 +301,27 @@ func TestVerifC18FrameDecEncDec(t *testing.T) {
 		c.Seed = rapid.Uint64().Draw(t, "seed")
 		return c
 	}})
+}
+
+// FuzzVerifC18Frame: native fuzzing of the frame decode -> encode -> decode
+// oracle (only does work when VERIF_FUZZ is set; thorough tier).
+func FuzzVerifC18Frame(f *testing.F) {
+	if os.Getenv("VERIF_FUZZ") == "" {
+		f.Skip("native fuzzing runs in the thorough tier only")
+	}
+	f.Add((&frame{tubeID: 3, ackNo: 1, frameNo: 2, dataLength: 3, data: []byte{1, 2, 3}, flags: frameFlags{ACK: true, REL: true}}).toBytes())
+	f.Add((&frame{tubeID: 0, flags: frameFlags{FIN: true}, data: []byte{}}).toBytes())
+	f.Fuzz(func(t *testing.T, in []byte) {
+		// a length field beyond the datagram, or a datagram shorter than a header, is C11's subject
+		if len(in) < 12 || 12+(int(in[2])<<8|int(in[3])) > len(in) {
+			t.Skip()
+		}
+		var v vlib.Verdict
+		c18FrameBytesB(in, &v)
+		for _, vi := range v.Violations {
+			if !vlib.KnownOpen(vi.Sig) {
+				t.Fatalf("VERIF-VIOLATION sig=%s detail=%s", vi.Sig, vi.Detail)
+			}
+		}
+	})
 }
